@@ -241,21 +241,66 @@ func c20(c *Ctx) {
 	for _, sb := range p.structBuilds(acq, 2) {
 		var tagF *types.Var
 		var cv int64
+		var tagPhi *ssa.Phi
 		for fv, v := range sb.Fields {
-			if v == nil {
+			if v == nil || !isIntegerType(fv.Type()) {
 				continue
 			}
-			if c, ok := constInt(v); ok && isIntegerType(fv.Type()) {
+			if c, ok := constInt(v); ok {
 				tagF, cv = fv, c
+			} else if ph, ok := resolveLocal(v).(*ssa.Phi); ok {
+				// single-exit style: the kind is chosen per path and merged
+				all := len(ph.Edges) > 0
+				for _, e := range ph.Edges {
+					if _, isC := constInt(e); !isC {
+						all = false
+					}
+				}
+				if all {
+					tagF, tagPhi = fv, ph
+				}
 			}
 		}
 		if tagF == nil {
 			continue
 		}
 		spaceTyp = tagF
+		callOf := func(v ssa.Value) *ssa.Call {
+			for _, a := range origins(v) {
+				if ex, ok := a.V.(*ssa.Extract); ok {
+					if cl, ok := ex.Tuple.(*ssa.Call); ok {
+						return cl
+					}
+				}
+			}
+			return nil
+		}
 		// which call feeds the sibling fields of this literal?
 		for fv, v := range sb.Fields {
 			if fv == tagF || v == nil {
+				continue
+			}
+			if tagPhi != nil {
+				ph, ok := resolveLocal(v).(*ssa.Phi)
+				if !ok || ph.Block() != tagPhi.Block() || len(ph.Edges) != len(tagPhi.Edges) {
+					continue
+				}
+				for k, e := range ph.Edges {
+					cl := callOf(e)
+					if cl == nil {
+						continue
+					}
+					if cal := staticCallee(cl.Common()); cal != nil {
+						tv, _ := constInt(tagPhi.Edges[k])
+						if old, seen := tagOf[cal]; seen && old != tv {
+							tagOf[cal] = -1 // inconsistent pairing
+						} else {
+							tagOf[cal] = tv
+						}
+						r.Check(errNilGuarded(sb.At.Block(), cl), "C20.R4", "Acquire success from "+shortName(cal)+" ("+fv.Name()+")", p.Pos(posOf(sb.At)), "region used only when its allocator returned nil error",
+							"Acquire returns a region although its allocator reported an error")
+					}
+				}
 				continue
 			}
 			for _, a := range origins(v) {
